@@ -108,6 +108,13 @@ impl TrackerClient {
 
     fn create_url(metainfo: &Metainfo) -> String {
         let info_hash: String = form_urlencoded::byte_serialize(metainfo.info_hash()).collect();
-        metainfo.tracker_url().clone() + "?info_hash=" + info_hash.as_str()
+        // Announce URL may already contain query string
+        let url = metainfo.tracker_url();
+        let separator = match url.find('?') {
+            None => "?",
+            Some(_) if url.ends_with('?') || url.ends_with('&') => "",
+            Some(_) => "&",
+        };
+        url.clone() + separator + "info_hash=" + info_hash.as_str()
     }
 }
